@@ -20,8 +20,8 @@ EXTENDS VectorQueryOps, Json, IOUtils, SequencesExt
 Rec == ndJsonDeserialize(IOEnv.TRACE)
 N   == Len(Rec)
 
-VARIABLES l, T, ever, data, model, metric, stable, inIndex, purged, hasIndex, nparts, scn, bad, info, cnt
-tvars == <<l, T, ever, data, model, metric, stable, inIndex, purged, hasIndex, nparts, scn, bad, info, cnt>>
+VARIABLES l, T, ever, data, model, metric, stable, inIndex, purged, inScalar, purgedS, scalar, hasIndex, nparts, scn, bad, info, cnt
+tvars == <<l, T, ever, data, model, metric, stable, inIndex, purged, inScalar, purgedS, scalar, hasIndex, nparts, scn, bad, info, cnt>>
 
 SeqToSet(s) == {s[i] : i \in 1..Len(s)}
 IsErr(P) == "error" \in DOMAIN P
@@ -55,11 +55,15 @@ AllDefined(Q) == \A r \in T : Defined(Q.metric, r.vec, Q.q)
    stable row ids, compaction physically removes deleted rows but the vector index keeps their
    entries and no deletion mask covers them any more.  Such a row still competes for the top k
    inside the index and is lost afterwards (fewer than k results, possibly none) or the query
-   fails when the take finds fewer rows than the index returned.  `purged` holds those rows.
+   fails when the take finds fewer rows than the index returned.  `purged` holds those rows
+   (`purgedS` the same for the btree index on the filter column, whose stale entries reach the
+   vector search through a scalar-index pre-filter).
    A rejected answer is attributed to the deviation when a purged row can be among the k nearest
    index entries and what was returned is otherwise sound.                                        *)
 PurgedExplains(Q, indexUsed, r) ==
-  LET P == IF Q.hasFilter /\ Q.prefilter THEN {} ELSE purged      \* a real pre-filter only allows live rows
+  \* a pre-filter computed by scanning only allows live rows; one answered by a scalar index (which has the
+  \* same stale entries) also allows the purged rows that pass it
+  LET P == IF Q.hasFilter /\ Q.prefilter THEN (IF scalar THEN {p \in purged \cup purgedS : Passes(p, Q)} ELSE {}) ELSE purged
       post == Q.hasFilter /\ ~Q.prefilter
       base == IF post THEN Candidates(T, Q, hasIndex) ELSE Eligible(T, Q, hasIndex)
       S == {[key |-> x.key, vec |-> x.vec] : x \in base} \cup {[key |-> x.key, vec |-> x.vec] : x \in P}
@@ -103,13 +107,13 @@ Facts(st, r) ==
      \cup (IF r.res = "ok" /\ ~AllDefined(Q) THEN {"skipped_undefined"} ELSE {})
      \cup (IF r.res = "ok" /\ Len(r.rows) > 0 THEN {"nonempty"} ELSE {})
      \cup (IF ever # Keys(T) THEN {"with_deleted"} ELSE {})
-     \cup (IF purged # {} /\ v.use_index /\ hasIndex THEN {"with_purged"} ELSE {})
+     \cup (IF purged \cup purgedS # {} /\ v.use_index /\ hasIndex THEN {"with_purged"} ELSE {})
      \cup (IF hasIndex /\ v.use_index /\ (\E x \in T : ~x.indexed) THEN {"with_unindexed"} ELSE {})
      \cup (IF Q.k > Cardinality(E) THEN {"k_exceeds_eligible"} ELSE {})
      \cup (IF tie THEN {"ties_at_boundary"} ELSE {})
 
 Init == /\ l = 1 /\ T = {} /\ ever = {} /\ data = <<>> /\ model = {} /\ metric = "l2" /\ hasIndex = FALSE /\ nparts = 0
-        /\ stable = FALSE /\ inIndex = {} /\ purged = {}
+        /\ stable = FALSE /\ inIndex = {} /\ purged = {} /\ inScalar = {} /\ purgedS = {} /\ scalar = FALSE
         /\ scn = 0 /\ bad = <<>> /\ info = <<>> /\ cnt = [n \in Counters |-> 0]
 
 StepRows(st) == {[key |-> st.rows[i][1], vec |-> <<st.rows[i][2], st.rows[i][3]>>, val |-> st.rows[i][4]] : i \in 1..Len(st.rows)}
@@ -149,6 +153,12 @@ Step(e) ==
                   ELSE IF op = "compact" /\ ok /\ stable /\ hasIndex
                        THEN purged \cup {data[k] : k \in (inIndex \ Keys(obs)) \cap DOMAIN data}
                        ELSE purged
+     /\ inScalar' = IF op = "scalar_index" /\ ok THEN Keys(obs) ELSE IF op = "optimize" /\ ok /\ scalar THEN inScalar \cup Keys(obs) ELSE inScalar
+     /\ purgedS' = IF op = "scalar_index" /\ ok THEN {}
+                   ELSE IF op = "compact" /\ ok /\ stable /\ scalar
+                        THEN purgedS \cup {data[k] : k \in (inScalar \ Keys(obs)) \cap DOMAIN data}
+                        ELSE purgedS
+     /\ scalar' = IF usable THEN P.scalar ELSE scalar
      /\ hasIndex' = IF usable THEN P.deltas > 0 ELSE hasIndex
      /\ nparts' = IF usable THEN P.nparts ELSE nparts
      /\ cnt' = BumpAll(Bump(cnt, {"steps", op} \cup (IF ~ok THEN {"step_failed"} ELSE {})
@@ -159,7 +169,7 @@ Next == /\ l <= N /\ l' = l + 1
         /\ LET e == Rec[l] IN
            IF e.ev = "reset"
            THEN /\ T' = {} /\ ever' = {} /\ data' = <<>> /\ model' = {} /\ metric' = e.metric /\ hasIndex' = FALSE
-                /\ stable' = e.stable /\ inIndex' = {} /\ purged' = {}
+                /\ stable' = e.stable /\ inIndex' = {} /\ purged' = {} /\ inScalar' = {} /\ purgedS' = {} /\ scalar' = FALSE
                 /\ nparts' = 0 /\ scn' = e.scn /\ bad' = bad /\ info' = info /\ cnt' = Bump(cnt, {"scenarios"})
            ELSE Step(e)
 TraceSpec == Init /\ [][Next]_tvars
